@@ -361,7 +361,10 @@ class Check:
         if extra_cov:
             self.cov.update(extra_cov)
         if exhaustive is not None:
-            self.cov["exhaustive"] = exhaustive
+            # schema: boolean; an explanatory text goes to exhaustive_scope
+            self.cov["exhaustive"] = bool(exhaustive)
+            if isinstance(exhaustive, str):
+                self.cov["exhaustive_scope"] = exhaustive
         self.cov["known_findings_seen"] = {d: len(fs) for d, fs in reported_known.items()}
         if not self.cov["samples"]:
             self.cov["samples"] = ["(no sample recorded)"]
